@@ -36,13 +36,13 @@ def cmdScan (args : List String) : String :=
     | _, _ => "bad-args"
   | _ => "bad-args"
 
-/-- `scanfile <max> <hex>` : the file scan. -/
+/-- `scanfile <hex>` : the sequential scan of a complete file (`cfgFile`). -/
 def cmdScanFile (args : List String) : String :=
   match args with
-  | [m, hex] =>
-    match m.toNat?, ofHex hex with
-    | some m, some bs => showPairs ((cfgPy m).runFile bs 0)
-    | _, _ => "bad-args"
+  | [hex] =>
+    match ofHex hex with
+    | some bs => showPairs (cfgFile.runFile bs 0)
+    | none => "bad-args"
   | _ => "bad-args"
 
 /-- `crc32 <hex>` -/
